@@ -246,7 +246,7 @@ func genC23Client(t *rapid.T) c23cCase {
 		return vf.Payload{N: n, Fill: 7}.Bytes()
 	}
 	longName := func() string {
-		n := rapid.SampledFrom([]int{3, 10, 248, 249, 250, 251, 252, 1000}).Draw(t, "namelen")
+		n := rapid.SampledFrom([]int{3, 10, 248, 249, 250, 251, 252, 1000, 8183, 8186, 8187, 8200, 65535}).Draw(t, "namelen")
 		b := make([]byte, n)
 		for i := range b {
 			b[i] = 'a' + byte(i%26)
@@ -289,7 +289,7 @@ func genC23Client(t *rapid.T) c23cCase {
 func TestC23Client(t *testing.T) {
 	vf.Check(t, vf.Prop[c23cCase]{
 		ID: "C23", Name: "client-datagrams-wellformed", Bubble: true,
-		Rule: "real client (with/without user, with/without will) driven through 1-10 API calls over all calls and topic forms: Register/Subscribe with names of 3-1000 octets (around the 255/256 length switch), Subscribe to wildcard, short and predefined topics, Publish and PublishPredefined at QoS 0-3 with payloads 0..66000 octets (around MaxPayloadLength, the 8192 transport maximum and the uint16 wrap), Ping, Sleep (incl. durations beyond 65535 s) followed by reconnect, Disconnect/Close, against a cooperative scripted gateway that also delivers messages and REGISTERs. Non-trivial = a case with a payload or name beyond 250 octets, or a sleep; distinct by case.",
+		Rule: "real client (with/without user, with/without will) driven through 1-10 API calls over all calls and topic forms: Register/Subscribe with names of 3-1000 octets (around the 255/256 length switch) and of 8183-65535 octets (which cannot fit a datagram: the call must fail without sending), Subscribe to wildcard, short and predefined topics, Publish and PublishPredefined at QoS 0-3 with payloads 0..66000 octets (around MaxPayloadLength, the 8192 transport maximum and the uint16 wrap), Ping, Sleep (incl. durations beyond 65535 s) followed by reconnect, Disconnect/Close, against a cooperative scripted gateway that also delivers messages and REGISTERs. Non-trivial = a case with a payload or name beyond 250 octets, or a sleep; distinct by case.",
 		Assumptions: []string{"well-formed = decodes with the reference decoder, its type is one a client sends (spec 5.4), its length field equals its size and the one-octet form is used iff size <= 255, size <= 8192"},
 		Gen:         genC23Client,
 		Run: func(c c23cCase) (r vf.Result) {
